@@ -3,6 +3,7 @@
 package corerad
 
 import (
+	"errors"
 	"fmt"
 	"net/netip"
 	"os"
@@ -15,6 +16,7 @@ import (
 	"github.com/mdlayher/corerad/verifrt/ev"
 	"github.com/mdlayher/corerad/verifrt/sdnotify"
 	"github.com/mdlayher/corerad/verifrt/vsched"
+	"github.com/mdlayher/ndp"
 )
 
 // C08: on termination exactly one zero-lifetime RA, last; on reload none; in
@@ -40,8 +42,8 @@ func c08Sig(s string) os.Signal {
 func c08Cases() []c08Case {
 	var cs []c08Case
 	for _, sig := range []string{"TERM", "HUP", "INT"} {
-		for _, sc := range []string{"serve-e2e", "after-reinit", "idle", "pending-delay", "rs-at-stop", "periodic-due", "armed-write-2", "armed-write-3-unicast", "armed-fwd-3"} {
-			if sig == "INT" && sc != "armed-write-3-unicast" && sc != "idle" && sc != "serve-e2e" && sc != "after-reinit" {
+		for _, sc := range []string{"serve-e2e", "after-reinit", "final-ra-fails", "idle", "pending-delay", "rs-at-stop", "periodic-due", "armed-write-2", "armed-write-3-unicast", "armed-fwd-3"} {
+			if sig == "INT" && sc != "armed-write-3-unicast" && sc != "idle" && sc != "serve-e2e" && sc != "after-reinit" && sc != "final-ra-fails" {
 				continue
 			}
 			cs = append(cs, c08Case{Name: sc + "/" + sig, Sig: sig, Script: sc, Latency: strings.HasPrefix(sc, "armed")})
@@ -71,6 +73,15 @@ func c08Scenario(c c08Case) *vsched.Scenario {
 				if !armed {
 					armed = true
 					close(arm)
+				}
+			}
+			if c.Script == "final-ra-fails" {
+				// The transmission of the final RA itself fails: stopping must still succeed.
+				a.writeFaultRA = func(_ *fconn, dst netip.Addr, ra *ndp.RouterAdvertisement) error {
+					if ra != nil && ra.RouterLifetime == 0 && isAllNodes(dst) {
+						return errors.New("verif: network is unreachable")
+					}
+					return nil
 				}
 			}
 			// Constructed stop instants: the stop thread becomes runnable exactly when
@@ -125,7 +136,7 @@ func c08Scenario(c c08Case) *vsched.Scenario {
 			x.Spawn("driver", func() {
 				defer a.done()
 				switch c.Script {
-				case "idle":
+				case "idle", "final-ra-fails":
 					vsched.Sleep(time.Second)
 					vsched.Mark()
 					stop()
